@@ -1023,14 +1023,14 @@ N('OS-open-start-ifexp', ['C05', 'C04'], 'index.py', 'LocMap.loc_to_iloc',
 
 # ---------------------------------------------------------------------------------- map-less route rejects negative labels (C04)
 B('NM-element-negative-unchecked', ['C04'], 'index.py', 'Index._loc_to_iloc',
-  '            elif isinstance(key, INT_TYPES):\n                if key < 0:\n                    raise KeyError(key)\n', '', 'I.nomap-negative-label-raises', '_loc_to_iloc')
+  '            elif isinstance(key, INT_TYPES):\n                # an element key is also used arithmetically (a leaf position within a hierarchy): it must be a label\n                if key < 0 or key >= self.__len__():\n                    raise KeyError(key)\n', '', 'I.nomap-negative-label-raises', '_loc_to_iloc')
 B('NM-slice-negative-unchecked', ['C04'], 'index.py', 'Index._loc_to_iloc',
   '                for attr in (key.start, key.stop): #type: ignore\n                    if isinstance(attr, INT_TYPES) and attr < 0:\n                        raise LocInvalid(\'Invalid loc given in a slice\', attr)\n',
   '', 'I.nomap-negative-label-raises', '_loc_to_iloc')
 B('NM-list-negative-passes', ['C04'], 'index.py', 'Index._loc_to_iloc',
   '                    if isinstance(k, INT_TYPES) and k < 0:\n                        raise KeyError(k)\n', '                    pass\n', 'I.nomap-negative-label-raises', '_loc_to_iloc')
 N('NM-element-zero-gt', ['C04'], 'index.py', 'Index._loc_to_iloc',
-  '                if key < 0:\n                    raise KeyError(key)\n', '                if 0 > key:\n                    raise KeyError(key)\n')
+  '                if key < 0 or key >= self.__len__():\n                    raise KeyError(key)\n', '                if 0 > key or key >= self.__len__():\n                    raise KeyError(key)\n')
 
 # ---------------------------------------------------------------------------------- direction of the inclusive stop (C04): today's tree has four known findings;
 # the variant checks that a direction-aware rewrite of one site is silent for this rule and for I.inclusive-stop
@@ -1064,3 +1064,29 @@ B('OC-axis-values-fast-path', ['C02', 'C03', 'C05'], 'type_blocks.py', 'TypeBloc
 N('OC-axis-values-fast-path-after-test', ['C02', 'C03', 'C05'], 'type_blocks.py', 'TypeBlocks.axis_values',
   '            unified = self.unified\n            # iterate over rows; might be faster to create entire values\n',
   '            unified = self.unified\n            if not reverse and unified and not zero_size and self._blocks[0].ndim == 2:\n                yield from self._blocks[0]\n                return\n')
+
+# ---------------------------------------------------------------------------------- derived flags stay fresh (C07 / C08 / C14)
+B('DF-any-before-narrowing', ['C07', 'C08', 'C14'], 'type_blocks.py', 'TypeBlocks._assign_from_boolean_blocks_by_unit',
+  '            if not is_element:\n                if block.ndim == 1:', '            target_found = target.any()\n            if not is_element:\n                if block.ndim == 1:',
+  'I.derived-flag-fresh', '_assign_from_boolean_blocks_by_unit',
+  edits=[dict(file='type_blocks.py', within='TypeBlocks._assign_from_boolean_blocks_by_unit',
+              find='            if not is_element:\n                if block.ndim == 1:', replace='            target_found = target.any()\n            if not is_element:\n                if block.ndim == 1:'),
+         dict(file='type_blocks.py', within='TypeBlocks._assign_from_boolean_blocks_by_unit',
+              find='            if not target.any(): # works for ndim 1 and 2\n                yield block\n\n            else:\n                assigned_dtype = resolve_dtype(value_dtype, block.dtype)',
+              replace='            if not target_found:\n                yield block\n\n            else:\n                assigned_dtype = resolve_dtype(value_dtype, block.dtype)')])
+N('DF-any-after-narrowing', ['C07', 'C08', 'C14'], 'type_blocks.py', 'TypeBlocks._assign_from_boolean_blocks_by_unit',
+  '            # evaluate after updating target\n            if not target.any(): # works for ndim 1 and 2\n                yield block\n',
+  '            target_found = target.any()\n            if not target_found:\n                yield block\n')
+
+# ---------------------------------------------------------------------------------- map-less route with an offset (C05 / C04)
+B('NMO-element-unchecked', ['C05', 'C04'], 'index.py', 'Index._loc_to_iloc',
+  '            # a single element\n            if not (isinstance(key, INT_TYPES) and 0 <= key < size):\n                raise KeyError(key)\n            return key + offset',
+  '            # a single element\n            return key + offset', 'I.nomap-offset-membership', '_loc_to_iloc')
+B('NMO-list-partial-ignored', ['C05', 'C04'], 'index.py', 'Index._loc_to_iloc',
+  '                if partial_selection:\n                    return [k + offset for k in key if isinstance(k, INT_TYPES) and 0 <= k < size]\n', '', 'I.nomap-offset-membership', '_loc_to_iloc')
+B('NMO-slice-helper-direct', ['C05', 'C04'], 'index.py', 'Index._loc_to_iloc',
+  '                key = slice_to_inclusive_slice(key, offset) #type: ignore\n                if key.step is None or key.step > 0: #type: ignore',
+  '                return slice_to_inclusive_slice(key, offset)\n                if key.step is None or key.step > 0:', 'I.nomap-offset-membership', '_loc_to_iloc')
+N('NMO-element-two-tests', ['C05', 'C04'], 'index.py', 'Index._loc_to_iloc',
+  '            if not (isinstance(key, INT_TYPES) and 0 <= key < size):\n                raise KeyError(key)\n            return key + offset',
+  '            if not isinstance(key, INT_TYPES) or key < 0 or key >= size:\n                raise KeyError(key)\n            return key + offset')
